@@ -254,6 +254,310 @@ def rule_api(repo, rid, modules):
     return res
 
 
+SATURATORS = {'clamp', 'clamp_', 'clip', 'clip_', 'clamp_min', 'clamp_max', 'clamp_min_', 'clamp_max_', 'nan_to_num', 'nan_to_num_', 'round', 'round_', 'floor', 'ceil', 'trunc',
+              'relu', 'softplus', 'maximum', 'minimum', 'fmax', 'fmin', 'nanmean', 'nansum', 'nanmedian'}
+EPS_NAMES = {'eps', 'epsilon', 'tiny', 'EPS', 'smallest_normal'}
+
+
+def _small_names(fnode):
+    """EPS_NAMES plus the local names bound to a machine epsilon / a small literal (documented tolerances - atol / rtol / tol parameters - are not hidden thresholds)"""
+    small = set(EPS_NAMES)
+    for n in _own_nodes(fnode):
+        if isinstance(n, ast.Assign) and len(n.targets) == 1 and isinstance(n.targets[0], ast.Name):
+            v = n.value
+            if (isinstance(v, ast.Attribute) and v.attr in EPS_NAMES) or (isinstance(v, ast.Constant) and isinstance(v.value, float) and 0 < abs(v.value) < 1e-2) or \
+                    (isinstance(v, ast.BinOp) and any(isinstance(x, ast.Attribute) and x.attr in EPS_NAMES for x in ast.walk(v))):
+                small.add(n.targets[0].id)
+    return small
+
+
+def guard_sites(fnode):
+    """[(kind, node)]: value-changing safeguards of a function body - 'sat' (clamp / nan_to_num / rounding / maximum-style saturation), 'eps' (a small constant or a
+    machine epsilon ADDED to / subtracted from a value), 'exc' (an exception handler that does not re-raise)"""
+    out = []
+    for n in _own_nodes(fnode):
+        if isinstance(n, ast.Call):
+            nm = (dotted(n.func) or (n.func.attr if isinstance(n.func, ast.Attribute) else '')).split('.')[-1]
+            if nm in SATURATORS and (isinstance(n.func, ast.Attribute) or (dotted(n.func) or '').startswith('torch.')) and not (dotted(n.func) or '').startswith(('math.', 'np.')):
+                out.append(('sat', n))
+        elif isinstance(n, ast.BinOp) and isinstance(n.op, (ast.Add, ast.Sub)):
+            for side in (n.left, n.right):
+                if isinstance(side, ast.Constant) and isinstance(side.value, float) and 0 < abs(side.value) < 1e-3:
+                    out.append(('eps', n))
+                elif isinstance(side, (ast.Name, ast.Attribute)) and (dotted(side) or '').split('.')[-1] in EPS_NAMES:
+                    out.append(('eps', n))
+        elif isinstance(n, ast.AugAssign) and isinstance(n.op, (ast.Add, ast.Sub)) and ((isinstance(n.value, ast.Constant) and isinstance(n.value.value, float) and 0 < abs(n.value.value) < 1e-3)
+                                                                                 or (dotted(n.value) or '').split('.')[-1] in EPS_NAMES):
+            out.append(('eps', n))
+        elif isinstance(n, ast.ExceptHandler) and not any(isinstance(x, ast.Raise) for x in ast.walk(n)):
+            out.append(('exc', n))
+        elif isinstance(n, ast.BinOp) and isinstance(n.op, (ast.Mult, ast.Div)) and any(isinstance(x, ast.Constant) and isinstance(x.value, float) and 0 < abs(x.value) < 1e-3
+                                                                                  for x in (n.left, n.right)):
+            out.append(('eps', n))                          # a scaled epsilon: 1e-6 * mean(diag A)
+    # threshold comparisons: a value compared with a small literal, a machine epsilon or a tolerance - the switch of a regime / a guard
+    small_names = _small_names(fnode)
+    for n in _own_nodes(fnode):
+        if isinstance(n, ast.Compare) and not any(isinstance(op, (ast.Is, ast.IsNot, ast.In, ast.NotIn)) for op in n.ops):
+            hit = False
+            for x in ast.walk(n):
+                if isinstance(x, ast.Constant) and isinstance(x.value, float) and 0 < abs(x.value) < 1e-2:
+                    hit = True
+                elif isinstance(x, ast.Name) and x.id in small_names:
+                    hit = True
+                elif isinstance(x, ast.Attribute) and x.attr in small_names:
+                    hit = True
+            if hit:
+                out.append(('thr', n))
+    return out
+
+
+def guard_key(kind, node, fnode):
+    """what a safeguard does, without where it is applied: a repeated identical clamp / threshold is idempotent or redundant, a new bound is a new safeguard"""
+    if kind == 'sat':
+        nm = (dotted(node.func) or (node.func.attr if isinstance(node.func, ast.Attribute) else '')).split('.')[-1]
+        args = list(node.args[1:] if (dotted(node.func) or '').startswith('torch.') else node.args)
+        return '%s(%s)' % (nm.rstrip('_'), ', '.join([src(a) for a in args if isinstance(a, (ast.Constant, ast.UnaryOp))] + sorted('%s=%s' % (k.arg, src(k.value) if isinstance(k.value, (ast.Constant, ast.UnaryOp)) else '*') for k in node.keywords)))
+    if kind == 'exc':
+        names = [] if node.type is None else [dotted(x) or src(x) for x in (node.type.elts if isinstance(node.type, ast.Tuple) else [node.type])]
+        if node.type is None or any(x in ('Exception', 'BaseException') for x in names):
+            return 'except Exception'                      # Exception or wider: one class of handler
+        return 'except ' + ', '.join(sorted(names))
+    if kind == 'thr':
+        # operator and the threshold side(s): which quantity is compared is left open
+        ths = []
+        small = _small_names(fnode)
+        for side in [node.left] + list(node.comparators):
+            if any((isinstance(x, ast.Constant) and isinstance(x.value, float) and 0 < abs(x.value) < 1e-2) or (isinstance(x, ast.Attribute) and x.attr in small) or
+                   (isinstance(x, ast.Name) and x.id in small) for x in ast.walk(side)):
+                ths.append(norm_construct(side, fnode))
+        # `x > eps` and `x <= eps` are the two sides of one switch
+        return 'cmp %s' % (' | '.join(ths) or 'local threshold')
+    return norm_construct(node, fnode)
+
+
+# every safeguard of the pinned tree that changes a value or swallows an exception, read and kept with its reason (2026-09, /repo ab36dfe)
+GUARD_TABLE = {
+    ('pypose.function.geometry:homo2cart', 'sat'): {'clamp(min=*)': '|w| floored at the smallest normal number: the division never produces inf, the sign is restored (C18.ORD)'},
+    ('pypose.function.geometry:svdtf', 'thr'): {'cmp 1e-06': 'reflection test |det R + 1| < 1e-6 of the SVD alignment'},
+    ('pypose.lietensor.convert:quat2unit', 'thr'): {'cmp v0': 'zero-norm quaternion rejected'},
+    ('pypose.lietensor.lietensor:LieTensor.euler', 'eps'): {'1.0 - v0': 'gimbal-lock threshold 1 - eps (C11.GIMBAL)'},
+    ('pypose.lietensor.lietensor:LieTensor.euler', 'sat'): {'clamp(-1, 1)': 'asin argument clamped to [-1, 1] against round-off (C11.KIND)'},
+    ('pypose.lietensor.lietensor:LieTensor.euler', 'thr'): {'cmp 1.0 - v0': 'gimbal-lock test |sin pitch| < 1 - eps (C11.GIMBAL)'},
+    ('pypose.lietensor.lietensor:so3Type.Jr', 'thr'): {'cmp torch.finfo(v0.dtype).eps': 'series / closed-form switch at machine epsilon (C05.LIMIT)'},
+    ('pypose.lietensor.operation:SO3_Log.forward', 'sat'): {'nan_to_num()': 'nan_to_num of a branch formula multiplied by its mask (Cxx.GD)'},
+    ('pypose.lietensor.operation:SO3_Log.forward', 'thr'): {'cmp v0': '|w| and |v| regime switches at machine epsilon (C02.LIMIT)'},
+    ('pypose.lietensor.operation:calcQ', 'sat'): {'nan_to_num()': 'nan_to_num of closed forms masked out below eps (Cxx.GD)'},
+    ('pypose.lietensor.operation:calcQ', 'thr'): {'cmp torch.finfo(v0.dtype).eps': 'series / closed-form switch at machine epsilon (Cxx.LIMIT)'},
+    ('pypose.lietensor.operation:rxso3_Ws', 'thr'): {'cmp torch.finfo(v0.dtype).eps': 'rotation and log-scale regime switches (Cxx.LIMIT)'},
+    ('pypose.lietensor.operation:so3_Exp.forward', 'thr'): {'cmp torch.finfo(v0.dtype).eps': 'series / closed-form switch at machine epsilon (C01.LIMIT)'},
+    ('pypose.lietensor.operation:so3_Jl', 'thr'): {'cmp torch.finfo(v0.dtype).eps': 'series / closed-form switch at machine epsilon (Cxx.LIMIT)'},
+    ('pypose.lietensor.operation:so3_Jl_inv', 'sat'): {'nan_to_num()': 'nan_to_num of the closed form that is masked out below eps (Cxx.GD)'},
+    ('pypose.lietensor.operation:so3_Jl_inv', 'thr'): {'cmp torch.finfo(v0.dtype).eps': 'series / closed-form switch at machine epsilon (Cxx.LIMIT)'},
+    ('pypose.optim.corrector:Triggs.forward', 'sat'): {'clamp(min=0)': "1 + 2 x rho'' / rho' clamped at 0: the documented Triggs correction takes the root of a non-negative number"},
+    ('pypose.optim.optimizer:LevenbergMarquardt.step', 'exc'): {'except Exception': 'a failing linear solver ends the trial with the state before it (C08.EXC)'},
+    ('pypose.optim.optimizer:LevenbergMarquardt.step', 'sat'): {'clamp()': 'diagonal of J^T W J clamped to the documented [min, max] (C07.DAMP)'},
+    ('pypose.optim.scheduler:StopOnPlateau.step', 'eps'): {'self.optimizer.last + 1e-31': '1e-31 in the denominator of the relative decrease shown in verbose mode only'},
+    ('pypose:_ensure_sparse_backend_version', 'exc'): {'except PackageNotFoundError': 'optional sparse backend absent: feature disabled'},
+    ('pypose:_load_optional_backend_attr', 'exc'): {'except ImportError': 'optional sparse backend absent: feature disabled'},
+}
+
+
+@guarded
+def rule_guardset(repo, rid, modules):
+    """A clamp, a nan_to_num, an added epsilon, a threshold switch, a swallowed exception change the value a function returns for SOME inputs - that is their purpose.
+    Each one in the tree was read and is tabled (function, kind, what it does) with the reason why the inputs it touches are outside the documented range or why
+    the saturation IS the documented behaviour.  A safeguard that does something NOT in the table of its function - "for robustness" - has not been shown to leave
+    admissible inputs alone: 1e-8 added to a norm biases every small vector, a clamp to new bounds cuts what legitimately leaves them, an `except: continue` hides
+    the failure the caller is promised.  A repetition of a tabled safeguard (the same bounds / the same threshold again) is idempotent or redundant and passes."""
+    res = RuleResult(rid, 'every value-changing safeguard of these modules (clamp / nan_to_num / rounding / maximum-style saturation, an epsilon added to or scaling a '
+                     'value, a switch on a small literal / machine epsilon, an exception handler that does not re-raise) does what one of the %d reviewed entries of '
+                     'GUARD_TABLE for its function does' % sum(len(v) for v in GUARD_TABLE.values()), floor=1)
+    n = 0
+    for m in modules:
+        for f in repo.module(m).functions.values():
+            n += 1
+            for kind, node in guard_sites(f.node):
+                key = guard_key(kind, node, f.node)
+                allowed = GUARD_TABLE.get((f.fq, kind), {})
+                res.inst({'function': f.fq, 'kind': kind, 'safeguard': key, 'tabled': allowed.get(key)}, (f.fq, kind, key, getattr(node, 'lineno', 0)))
+                if key not in allowed:
+                    what = {'sat': 'saturates / sanitises a value', 'eps': 'adds (or scales by) an epsilon', 'exc': 'catches an exception without re-raising',
+                            'thr': 'switches on a threshold (a small literal / a machine epsilon): a regime or guard of its own'}[kind]
+                    res.add(Finding(rid, f, '`%s` %s (%s) and is not one of the reviewed safeguards of %s (%s): it changes the result for the inputs it touches - admissible '
+                                    'ones unless shown otherwise' % (src(node)[:60].replace('\n', ' '), what, key, f.fq.split(':')[-1], ', '.join(sorted(allowed)) or 'none tabled'),
+                                    node=node, construct='unreviewed safeguard|%s|%s' % (kind, key)))
+    res.inst({'functions scanned': n}, 'scan')
+    fx = ast.parse('def f(x):\n    n = x.norm(dim=-1) + 1e-8\n    y = (x / n).clamp(-1, 1)\n    try:\n        z = g(y)\n    except Exception:\n        z = y\n    return z\n').body[0]
+    if sorted(k for k, _ in guard_sites(fx)) != ['eps', 'exc', 'sat']:
+        raise AnalysisError('%s: fixtures no longer classified' % rid)
+    return res
+
+
+RNG_CALLS = {'rand', 'randn', 'randint', 'randperm', 'multinomial', 'normal', 'rand_like', 'randn_like', 'randint_like', 'bernoulli', 'poisson', 'sample', 'rsample', 'uniform_',
+             'normal_', 'random_', 'exponential_', 'manual_seed', 'seed', 'shuffle', 'choice', 'set_rng_state'}
+# functions whose JOB is to draw random numbers, with the number of draw sites read in each (2026-09, /repo ab36dfe)
+RNG_TABLE = {
+    'pypose.function.geometry:random_filter': 1, 'pypose.function.geometry:voxel_filter': 1,
+    'pypose.lietensor.lietensor:LieType.randn_like': 1, 'pypose.lietensor.lietensor:SO3Type.randn': 1, 'pypose.lietensor.lietensor:so3Type.randn': 2,
+    'pypose.lietensor.lietensor:SE3Type.randn': 1, 'pypose.lietensor.lietensor:se3Type.randn': 2, 'pypose.lietensor.lietensor:Sim3Type.randn': 1,
+    'pypose.lietensor.lietensor:sim3Type.randn': 3, 'pypose.lietensor.lietensor:RxSO3Type.randn': 1, 'pypose.lietensor.lietensor:rxso3Type.randn': 2,
+    'pypose.lietensor.utils:randn_like': 1, 'pypose.lietensor.utils:randn_so3': 1, 'pypose.lietensor.utils:randn_SO3': 1, 'pypose.lietensor.utils:randn_se3': 1,
+    'pypose.lietensor.utils:randn_SE3': 1, 'pypose.lietensor.utils:randn_sim3': 1, 'pypose.lietensor.utils:randn_Sim3': 1, 'pypose.lietensor.utils:randn_rxso3': 1,
+    'pypose.lietensor.utils:randn_RxSO3': 1, 'pypose.module.pf:PF.generate_particles': 1, 'pypose.module.pf:PF.resample_particles': 1,
+}
+
+
+def rng_sites(fnode):
+    out = []
+    for c in _own_nodes(fnode):
+        if isinstance(c, ast.Call):
+            d = dotted(c.func) or ''
+            nm = (d or (c.func.attr if isinstance(c.func, ast.Attribute) else '')).split('.')[-1]
+            if nm in RNG_CALLS and (d.startswith(('torch.', 'random.', 'np.')) or isinstance(c.func, ast.Attribute)):
+                out.append(c)
+    return out
+
+
+@guarded
+def rule_rng(repo, rid, modules):
+    res = RuleResult(rid, 'only the %d functions whose job it is draw random numbers, each at the tabled number of sites: a draw anywhere else (a sanity probe, a random '
+                     'tie-break, a jitter "for conditioning") shifts the generator - every later random result of the caller changes - and makes a deterministic function '
+                     'random' % len(RNG_TABLE), floor=1)
+    n = 0
+    for m in modules:
+        for f in repo.module(m).functions.values():
+            n += 1
+            sites = rng_sites(f.node)
+            if not sites and f.fq not in RNG_TABLE:
+                continue
+            allowed = RNG_TABLE.get(f.fq, 0)
+            res.inst({'function': f.fq, 'random draws': [src(c)[:50] for c in sites], 'tabled': allowed}, f.fq)
+            for c in sites[allowed:] if len(sites) > allowed else []:
+                res.add(Finding(rid, f, '`%s` draws from the random generator in %s (%d draw sites tabled): the state of the generator after the call - and with it every later '
+                                'random result of the caller - changes, and the function\'s own result is no longer determined by its arguments'
+                                % (src(c)[:60], f.fq.split(':')[-1], allowed), node=c, construct='unlisted random draw|' + norm_construct(c, f.node)))
+    res.inst({'functions scanned': n}, 'scan')
+    fx = ast.parse('def f(x):\n    probe = torch.randn(3)\n    return x @ probe\n').body[0]
+    if len(rng_sites(fx)) != 1:
+        raise AnalysisError('%s: fixture no longer classified' % rid)
+    return res
+
+
+# attributes each method writes on its object outside the constructor, as read on the pinned tree (2026-09, /repo ab36dfe): the carried state of the library
+ATTR_TABLE = {
+    'pypose.metric.ape_rpe:StampedSE3.reduce_to_ids': {'poses', 'timestamps'}, 'pypose.metric.ape_rpe:StampedSE3.align': {'poses'}, 'pypose.metric.ape_rpe:StampedSE3.type': {'poses'},
+    'pypose.metric.ape_rpe:StampedSE3.cuda': {'poses'}, 'pypose.metric.ape_rpe:StampedSE3.cpu': {'poses'},
+    'pypose.module.dynamics:System.forward': {'input', 'state'}, 'pypose.module.dynamics:LTV.set_refpoint': {'systime'}, 'pypose.module.dynamics:NLS.forward': {'input', 'state'},
+    'pypose.module.dynamics:NLS.set_refpoint': {'_ref_f', '_ref_g', '_ref_input', '_ref_state', '_ref_t'},
+    'pypose.module.imu_preintegrator:IMUPreintegrator.forward': {'Rij', 'cov', 'pos', 'rot', 'vel'}, 'pypose.module.lqr:LQR.lqr_backward': {'u_traj', 'x_traj'},
+    'pypose.optim.optimizer:GaussNewton.step': {'last', 'loss'}, 'pypose.optim.optimizer:LevenbergMarquardt.step': {'last', 'loss', 'reject_count'},
+    'pypose.optim.scheduler:StopOnPlateau.step': {'_continual', 'patience_count', 'steps'}, 'pypose.optim.solver:LSTSQ.forward': {'out'},
+    'pypose.utils.stepper:_Stepper.reset': {'_continual', 'last', 'patience_count', 'steps'}, 'pypose.utils.stepper:ReduceToBason.step': {'_continual', 'last', 'patience_count', 'steps'},
+}
+
+
+def attr_writes(fnode):
+    out = {}
+    for n in _own_nodes(fnode):
+        if isinstance(n, ast.Attribute) and isinstance(n.ctx, ast.Store) and isinstance(n.value, ast.Name) and n.value.id == 'self':
+            out.setdefault(n.attr, n)
+        elif isinstance(n, ast.Call) and dotted(n.func) == 'setattr' and len(n.args) >= 2 and dotted(n.args[0]) == 'self' and isinstance(n.args[1], ast.Constant):
+            out.setdefault(str(n.args[1].value), n)
+    return out
+
+
+@guarded
+def rule_attrs(repo, rid, modules):
+    """The objects of these modules carry exactly the state the documentation describes (the table).  A value a method newly keeps on its object and that some
+    method READS makes the result of a call depend on the calls before it: "the last gain kept for inspection" that a later step reuses, a flag set on the first
+    call.  A new attribute that is only written is inert and is not reported."""
+    res = RuleResult(rid, 'outside the constructors a method writes only the tabled attributes of its object; a newly kept attribute that a method of the class reads '
+                     '(history dependence) is a finding', floor=1)
+    n = 0
+    for m in modules:
+        mod = repo.module(m)
+        for f in mod.functions.values():
+            if f.cls is None or f.name in ('__init__', '__new__', '__setstate__', 'load_state_dict') or f.is_static():
+                continue
+            ws = attr_writes(f.node)
+            if not ws and f.fq not in ATTR_TABLE:
+                continue
+            n += 1
+            allowed = ATTR_TABLE.get(f.fq, set())
+            new = sorted(set(ws) - allowed)
+            res.inst({'function': f.fq, 'attributes written': sorted(ws), 'not tabled': new}, f.fq)
+            for a in new:
+                w = ws[a]
+                # `self.tol = float(self.tol)`: an attribute re-written from itself only (a normalisation of configured state) carries nothing new
+                st = next((x for x in ast.walk(f.node) if isinstance(x, ast.Assign) and any(y is w for t in x.targets for y in ast.walk(t))), None)
+                if st is not None and len(st.targets) == 1 and st.targets[0] is w:
+                    reads = {dotted(y) for y in ast.walk(st.value) if isinstance(y, ast.Attribute) and isinstance(y.value, ast.Name) and y.value.id == 'self'}
+                    others = {y.id for y in ast.walk(st.value) if isinstance(y, ast.Name)} - {'self', 'float', 'int', 'bool', 'torch', 'abs', 'max', 'min'}
+                    if reads == {'self.' + a} and not others:
+                        continue
+                readers = []
+                for g in f.cls.methods.values():
+                    for x in ast.walk(g.node):
+                        if isinstance(x, ast.Attribute) and x.attr == a and isinstance(x.ctx, ast.Load) and isinstance(x.value, ast.Name) and x.value.id == 'self':
+                            if g is f and x.lineno > w.lineno:
+                                continue                     # read back after the store in the same call: a local in disguise
+                            readers.append(g.fq.split(':')[-1])
+                    for x in ast.walk(g.node):
+                        if isinstance(x, ast.Call) and dotted(x.func) in ('getattr', 'hasattr') and len(x.args) >= 2 and dotted(x.args[0]) == 'self' and \
+                                isinstance(x.args[1], ast.Constant) and x.args[1].value == a and not (g is f and x.lineno > w.lineno):
+                            readers.append(g.fq.split(':')[-1])
+                if readers:
+                    res.add(Finding(rid, f, '%s keeps `self.%s` on the object and %s reads it: the result of a call now depends on the calls made before it (the attribute is '
+                                    'not part of the documented state of the class)' % (f.fq.split(':')[-1], a, sorted(set(readers))[0]), node=w,
+                                    construct='new carried attribute|' + a))
+    res.inst({'functions scanned': n}, 'scan')
+    return res
+
+
+CONTAINER_MUTATORS = {'sort', 'reverse', 'append', 'extend', 'insert', 'pop', 'remove', 'clear', 'setdefault', 'popitem'}
+
+
+def arg_mutations(fnode):
+    """[(call, param)]: a list / dict method that changes its receiver, applied to a parameter of the function (not *args / **kwargs, which the call owns) that
+    has not been re-bound to a copy before"""
+    a = fnode.args
+    params = {x.arg for x in a.posonlyargs + a.args + a.kwonlyargs} - {'self', 'cls'}
+    rebound = {}
+    for n in _own_nodes(fnode):
+        if isinstance(n, ast.Assign):
+            for t in n.targets:
+                for x in ([t] if isinstance(t, ast.Name) else [y for y in ast.walk(t) if isinstance(y, ast.Name)]):
+                    if x.id in params:
+                        rebound.setdefault(x.id, n.lineno)
+    out = []
+    for c in _own_nodes(fnode):
+        if isinstance(c, ast.Call) and isinstance(c.func, ast.Attribute) and c.func.attr in CONTAINER_MUTATORS and isinstance(c.func.value, ast.Name) and c.func.value.id in params:
+            p_ = c.func.value.id
+            if p_ in rebound and rebound[p_] < c.lineno:
+                continue
+            out.append((c, p_))
+    return out
+
+
+@guarded
+def rule_argmut(repo, rid, modules):
+    res = RuleResult(rid, 'no function sorts, reverses, extends or pops a list / dict it was handed as an argument (`arg.sort()`, `arg.pop()` ...): the caller\'s '
+                     'container is changed, and so is the meaning of its positions (per-axis sizes, ordered gains) for the rest of THIS call', floor=1)
+    n = 0
+    for m in modules:
+        for f in repo.module(m).functions.values():
+            n += 1
+            for c, p_ in arg_mutations(f.node):
+                res.inst({'function': f.fq, 'mutation': src(c)[:50], 'argument': p_}, (f.fq, src(c)[:50]))
+                res.add(Finding(rid, f, '`%s` changes the container the caller passed as `%s` in place: the order / content the rest of the function (and the caller afterwards) '
+                                'relies on is no longer the one that was given' % (src(c)[:50], p_), node=c, construct='argument container mutated|' + p_))
+    res.inst({'functions scanned': n}, 'scan')
+    fx = ast.parse('def f(pts, voxel, **kw):\n    voxel.sort(reverse=True)\n    kw.pop("a", None)\n    v2 = sorted(voxel)\n    return v2\n').body[0]
+    if len(arg_mutations(fx)) != 1:
+        raise AnalysisError('%s: fixture no longer classified' % rid)
+    return res
+
+
 # ------------------------------------------------------------------------------------------------ sites read and tabled (2026-09, HEAD e00fd9c)
 EXEMPT_DT = {
     ('pypose.function.geometry:voxel_filter', 'torch.tensor(v0, device=v1.device)'): 'voxel sizes given as a Python list: used as a divisor, type-promoted with the points',
@@ -284,7 +588,7 @@ EXEMPT_MODE = {
 
 
 def mode_rules(repo, pid, modules):
-    from .ipalias import rule_ipalias, rule_lostupdate
+    from .ipalias import rule_ipalias, rule_lostupdate, rule_storage
     from .unused import rule_unused
     return [rule_dtype_mod(repo, pid + '.DTMOD', modules, EXEMPT_DT), rule_mode(repo, pid + '.MODE', modules, EXEMPT_MODE),
-            rule_ipalias(repo, pid + '.IPA', modules), rule_unused(repo, pid + '.UNUSED', modules), rule_cast(repo, pid + '.CAST', modules), rule_api(repo, pid + '.API', modules), rule_lostupdate(repo, pid + '.LOST', modules)]
+            rule_ipalias(repo, pid + '.IPA', modules), rule_unused(repo, pid + '.UNUSED', modules), rule_cast(repo, pid + '.CAST', modules), rule_api(repo, pid + '.API', modules), rule_lostupdate(repo, pid + '.LOST', modules), rule_guardset(repo, pid + '.GUARDS', modules), rule_rng(repo, pid + '.RNG', modules), rule_attrs(repo, pid + '.ATTRS', modules), rule_argmut(repo, pid + '.ARGMUT', modules), rule_storage(repo, pid + '.STORAGE', modules)]
